@@ -149,6 +149,10 @@ class ScriptedAdapter(ScriptAdapter):
                 raise AssertionError(
                     "scenario reports a step that was not queried: %s" % name)
             jid = owner_to_job[name]
+            if WORLD.ledger.get(jid) in TERMINAL and code == JobStatusCode.OK:
+                # a job that has ended stays ended: asked again about it, the scheduler repeats
+                # itself whatever the scenario would like to say next
+                st = WORLD.ledger[jid]
             status[jid] = None if st is None else getattr(State, st)
             if st in TERMINAL and code == JobStatusCode.OK:
                 WORLD.ledger[jid] = st
